@@ -16,13 +16,22 @@
 
    producer pcs: start -> check -> (done | unlocked -> relock_sig|relock_ctx -> check|ctx_locked -> done)
                  wait_for_result adds: enq -> wait_res -> done
-   consumer pcs: idle -> pop -> got -> exporting -> ondone -> (send_blocked ->) sig_done -> idle | exited *)
+   consumer pcs: idle -> pop -> (cparked -> cwoken -> pop |) exporting -> ondone_lock -> ondone -> (send_blocked ->)
+                 sig_done -> idle | exited
+
+   The consumer side uses a plain sync.Cond (`hasMoreElements`): Read() is `for !hasElements && !stopped { Wait() }`,
+   add()/putInternal() Signal after every push, Shutdown Broadcasts.  Wait() puts the goroutine on the notify list
+   BEFORE it unlocks, so "parked" begins atomically with the unlock (CPop); Signal moves ONE parked consumer to
+   `cwoken` (it still has to re-take the mutex).  ConsSignal = "always" is the design of the tree; "onempty" is the
+   classic mistaken optimisation (signal only on the empty -> non-empty transition), kept as the negative control of
+   the clause WorkConserving (seeded change C02-5). *)
 EXTENDS Integers, Sequences, FiniteSets, TLC
 
 CONSTANTS Producers, NumConsumers, Cap, Sz, CanCancel, Nobody,
           Block,       \* block_on_overflow
           WFR,         \* wait_for_result
-          CondImpl     \* "token" | "close"
+          CondImpl,    \* "token" | "close"
+          ConsSignal   \* "always" | "onempty"  (consumer-side wake-up on push)
 
 Consumers == 1..NumConsumers
 C(i) == "c" \o ToString(i)
@@ -48,6 +57,7 @@ Init ==
   /\ resch = [p \in Producers |-> "none"] /\ handed = <<>> /\ acceptedSeq = <<>> /\ sdpc = "idle"
 
 Parked        == {p \in Producers : ppc[p] = "parked"}
+CParked       == {c \in Consumers : cpc[c] = "cparked"}
 SenderBlocked == {c \in Consumers : cpc[c] = "send_blocked"}
 
 Cancel(p) == /\ p \in CanCancel /\ p \notin cancelled /\ result[p] = "none"
@@ -73,17 +83,21 @@ PCheck(p) ==
   /\ IF size + Sz[p] > Cap
        THEN IF ~Block
               THEN /\ mu' = Nobody /\ ppc' = [ppc EXCEPT ![p] = "done"] /\ result' = [result EXCEPT ![p] = "full"]
-                   /\ UNCHANGED <<size, items, waiting, wgen, acceptedSeq>>
+                   /\ UNCHANGED <<size, items, waiting, wgen, acceptedSeq, cpc>>
               ELSE \* cond.Wait: (capture the channel,) waiting++, Unlock
                    /\ waiting' = waiting + 1 /\ wgen' = [wgen EXCEPT ![p] = gen] /\ mu' = Nobody
                    /\ ppc' = [ppc EXCEPT ![p] = "unlocked"]
-                   /\ UNCHANGED <<size, items, result, acceptedSeq>>
+                   /\ UNCHANGED <<size, items, result, acceptedSeq, cpc>>
        ELSE /\ size' = size + Sz[p] /\ items' = Append(items, p) /\ acceptedSeq' = Append(acceptedSeq, p)
             /\ mu' = Nobody
+            \* hasMoreElements.Signal(): one parked consumer (if any) is taken off the notify list
+            /\ IF CParked # {} /\ (ConsSignal = "always" \/ Len(items) = 0)
+                 THEN \E w \in CParked : cpc' = [cpc EXCEPT ![w] = "cwoken"]
+                 ELSE UNCHANGED cpc
             /\ IF WFR THEN ppc' = [ppc EXCEPT ![p] = "wait_res"] /\ UNCHANGED result
                       ELSE ppc' = [ppc EXCEPT ![p] = "done"] /\ result' = [result EXCEPT ![p] = "ok"]
             /\ UNCHANGED <<waiting, wgen>>
-  /\ UNCHANGED <<stopped, buf, gen, cancelled, cpc, chold, resch, handed, sdpc>>
+  /\ UNCHANGED <<stopped, buf, gen, cancelled, chold, resch, handed, sdpc>>
 
 \* select { <-ctx.Done() ; <-ch }
 PSelect(p) ==
@@ -131,11 +145,10 @@ PWaitRes(p) ==
   /\ UNCHANGED <<mu, size, items, stopped, waiting, buf, gen, wgen, cancelled, cpc, chold, resch, handed, acceptedSeq, sdpc>>
 
 ----------------------------------------------------------------------------
-\* consumer: Read (sync.Cond wait abstracted: lock only when there is something to do), export, onDone
-CLock(c) == /\ cpc[c] \in {"idle", "ondone_lock"} /\ mu = Nobody
-            /\ (cpc[c] = "idle" => (Len(items) > 0 \/ stopped))
+\* consumer: Read (lock; while nothing queued and not stopped: sync.Cond.Wait), export, onDone
+CLock(c) == /\ cpc[c] \in {"idle", "cwoken", "ondone_lock"} /\ mu = Nobody
             /\ mu' = C(c)
-            /\ cpc' = [cpc EXCEPT ![c] = IF @ = "idle" THEN "pop" ELSE "ondone"]
+            /\ cpc' = [cpc EXCEPT ![c] = IF @ = "ondone_lock" THEN "ondone" ELSE "pop"]
             /\ UNCHANGED <<size, items, stopped, waiting, buf, gen, wgen, ppc, cancelled, result, chold, resch, handed, acceptedSeq, sdpc>>
 
 CPop(c) == /\ cpc[c] = "pop" /\ mu = C(c)
@@ -143,7 +156,7 @@ CPop(c) == /\ cpc[c] = "pop" /\ mu = C(c)
                 THEN /\ chold' = [chold EXCEPT ![c] = Head(items)] /\ items' = Tail(items)
                      /\ cpc' = [cpc EXCEPT ![c] = "exporting"] /\ handed' = Append(handed, Head(items))
                 ELSE /\ UNCHANGED <<chold, items, handed>>
-                     /\ cpc' = [cpc EXCEPT ![c] = IF stopped THEN "exited" ELSE "idle"]
+                     /\ cpc' = [cpc EXCEPT ![c] = IF stopped THEN "exited" ELSE "cparked"]   \* Wait(): on the notify list, unlock
            /\ mu' = Nobody
            /\ UNCHANGED <<size, stopped, waiting, buf, gen, wgen, ppc, cancelled, result, resch, acceptedSeq, sdpc>>
 
@@ -181,7 +194,8 @@ SLock == /\ sdpc = "idle" /\ AllProducersDone /\ mu = Nobody
          /\ UNCHANGED <<size, items, stopped, waiting, buf, gen, wgen, ppc, cancelled, result, cpc, chold, resch, handed, acceptedSeq>>
 SStop == /\ sdpc = "locked" /\ mu = "shutdown"
          /\ stopped' = TRUE /\ mu' = Nobody /\ sdpc' = "done"
-         /\ UNCHANGED <<size, items, waiting, buf, gen, wgen, ppc, cancelled, result, cpc, chold, resch, handed, acceptedSeq>>
+         /\ cpc' = [c \in Consumers |-> IF cpc[c] = "cparked" THEN "cwoken" ELSE cpc[c]]      \* hasMoreElements.Broadcast()
+         /\ UNCHANGED <<size, items, waiting, buf, gen, wgen, ppc, cancelled, result, chold, resch, handed, acceptedSeq>>
 
 Next == \/ \E p \in Producers : \/ Cancel(p) \/ PEarly(p) \/ PLock(p) \/ PCheck(p) \/ PSelect(p)
                                 \/ PWakeCtx(p) \/ PCtxLocked(p) \/ PWaitRes(p)
@@ -223,8 +237,14 @@ NoLostWakeup ==
      (ppc[p] \in {"parked", "unlocked"} /\ p \notin cancelled /\ size + Sz[p] <= Cap)
      => \/ (CondImpl = "token" /\ buf = 1) \/ (CondImpl = "close" /\ wgen[p] < gen)       \* a wake-up is in flight
         \/ \E o \in Producers \ {p} : ppc[o] \in {"start", "check", "relock_sig", "relock_ctx", "ctx_locked"}
-        \/ \E c \in Consumers : cpc[c] \notin {"idle", "exited"}
+        \/ \E c \in Consumers : cpc[c] \notin {"cparked", "exited"}
         \/ Len(items) > 0
+\* consumer side of "no lost wake-ups" (safety form of "every accepted request is handed to a consumer" while consumers
+\* are idle): whenever a consumer is parked on hasMoreElements, every queued request has a consumer that is on its way
+\* to pop it WITHOUT needing a further signal (woken, about to lock, popping, or finishing a completion and looping).
+\* A consumer busy in the export function does not count: it may stay there arbitrarily long.
+CActive == {c \in Consumers : cpc[c] \in {"idle", "cwoken", "pop", "ondone_lock", "ondone", "sig_done"}}
+WorkConserving == (CParked # {} /\ ~stopped) => Len(items) <= Cardinality(CActive)
 \* liveness (FairSpec): every producer returns, and everything accepted is handed over
 EventuallyAllDone == <>AllDone
 =============================================================================
